@@ -104,12 +104,17 @@ PfMa == {"plain", "ma"}
 CtList == {"list"}
 CtAll == {"list", "tuple", "ndarray"}
 Ov3 == <<Q(89), Q(97), Q(101)>>
+OvZ == <<Q(0), Q(97), Q(0)>>      \* an override that is exactly 0
+SfList == {"list"}
+SfAll == {"list", "str", "odict", "alias", "set", "none", "sortlist"}
+SortId == <<"A", "B", "C", "D">>
+SortIon == <<"D", "A", "C", "B">>   \* AgCl(s) < H+ < H2O < OH-
 NoFeeds == {}
 
 OrdOne == { <<"C", "A", "D", "B">> }
 OrdTwo == { <<"C", "A", "D", "B">>, <<"A", "B", "C", "D">> }
 OrdSome == { <<"C", "A", "D", "B">>, <<"A", "B", "C", "D">>, <<"D", "C", "B", "A">>, <<"B", "D", "A", "C">>,
-             <<"A", "C", "B", "D">>, <<"D", "A", "B", "C">> }
+             <<"A", "C", "B", "D">>, <<"D", "A", "B", "C">>, <<"D", "A", "C", "B">> }
 OrdAll == { o \in [1..4 -> AllSpecies] : \A i, j \in 1..4 : i # j => o[i] # o[j] }
 
 ASSUME \A r \in Cat64 \cup CatHalf : IsShape(r)
